@@ -89,6 +89,13 @@ class PipeCore(object):
                 raise self.exc_timeout('injected timeout at call %d (%s)' % (k, kind))
             if f == 'reset':
                 raise SimReset('injected reset at call %d (%s)' % (k, kind))
+            if f == 'wstall':
+                # the transport cannot make progress for now: the call ends when its timeout expires - with no timeout it never ends
+                t_ = detail[1] if isinstance(detail, tuple) else detail
+                if t_ is None:
+                    raise Watchdog('a transport call without a timeout on a stalled transport (call %d, %s)' % (k, kind))
+                self.clock.advance(max(t_, 0))
+                raise self.exc_timeout('injected stall at call %d (%s): timed out after %s s' % (k, kind, t_))
             if f == 'epipe':
                 import errno
                 raise BrokenPipeError(errno.EPIPE, 'injected broken pipe at call %d (%s)' % (k, kind))     # what a socket raises once the peer has gone away
